@@ -13,6 +13,7 @@ mod orc_a;
 mod orc_b;
 mod orc_c;
 mod orc_d;
+mod orc_e;
 mod spec;
 mod util;
 
